@@ -40,6 +40,11 @@ pub struct Sim {
 }
 
 impl Sim {
+    /// Everything in `image` is both in the OS and on stable storage.
+    pub fn from_image(image: &Image) -> Sim {
+        Sim { os: image.clone(), synced: image.clone(), durable_names: image.keys().cloned().collect(), ..Default::default() }
+    }
+
     fn touch(&mut self, name: &str) {
         if let Some(content) = self.os.get(name) {
             self.unsynced_steps
@@ -251,6 +256,11 @@ pub struct CrashCfg {
     pub cont_other: usize,
     /// also enumerate the crash points of the initial open of an empty directory
     pub initial_open: bool,
+    /// Start from a non-initial directory: the seed is run and closed, the newest WAL file of the
+    /// image it leaves is cut to (`Some(len)`) bytes - the size a file has when its extension to
+    /// full length had only partly reached the disk -, the directory is opened (the model is
+    /// re-based on what that open yields) and the ops after the seed form the history.
+    pub pre_cut_last_file: Option<usize>,
 }
 
 fn cont_alphabet() -> Vec<Op> {
@@ -398,6 +408,7 @@ fn case_json(ctx: &Ctx, point: &serde_json::Value, image: &Image) -> serde_json:
         "policy": ctx.cfg.policy,
         "hash_seed": ctx.cfg.hash_seed,
         "power_loss": ctx.cfg.power_loss,
+        "pre_cut_last_file": ctx.cfg.pre_cut_last_file,
         "seed_name": ctx.leaf.seed.name,
         "seed_ops": ctx.leaf.seed.ops,
         "ops": ctx.leaf.ops,
@@ -426,29 +437,69 @@ pub fn crash_leaf(env: &mut Env, leaf: &Leaf, cfg: &CrashCfg) {
 }
 
 fn crash_leaf_inner(stats: &mut Stats, dir: &Path, dir2: &Path, leaf: &Leaf, cfg: &CrashCfg) {
+    // ---- 0. optionally: start from the (cut) image the seed leaves
+    let mut pre_image: Option<Image> = None;
+    if let Some(cut) = cfg.pre_cut_last_file {
+        let mut r0 = match Run::start(dir, cfg.policy, cfg.hash_seed, false, default_names()) {
+            Ok(r) => r,
+            Err(_) => {
+                stats.diverged += 1;
+                return;
+            }
+        };
+        for op in &leaf.seed.ops {
+            let rec = r0.step(op);
+            if rec.got != rec.expected {
+                stats.diverged += 1;
+                return;
+            }
+        }
+        drop(r0);
+        let mut img = read_image(dir);
+        let Some(last) = img.keys().next_back().cloned() else { return };
+        let f = img.get_mut(&last).unwrap();
+        if cut >= f.len() {
+            return;
+        }
+        f.truncate(cut);
+        set_image(dir, &img);
+        pre_image = Some(img);
+    }
     // ---- 1. run the history with the trace on
     let mut run = match Run::start(dir, cfg.policy, cfg.hash_seed, true, default_names()) {
         Ok(r) => r,
         Err(_) => {
-            stats.diverged += 1;
+            if pre_image.is_some() {
+                stats.count("pre_cut_directories_refused_by_open", 1);
+            } else {
+                stats.diverged += 1;
+            }
             return;
         }
     };
+    if pre_image.is_some() {
+        stats.count("pre_cut_directories_opened", 1);
+        run.model = obs_to_model(&run.subject.observe());
+        run.resolver.uniq = 7000;
+    }
     let mut hist = Hist {
         cops: vec![],
         outcomes: vec![],
         events: vec![],
-        states: vec![Model::default()],
+        states: vec![run.model.clone()],
         batches: vec![],
         truncs: vec![],
         attr: vec![],
         entry_starts: Default::default(),
     };
-    let seed_len = leaf.seed.ops.len();
-    let all_ops: Vec<&Op> = leaf.seed.ops.iter().chain(leaf.ops.iter().copied()).collect();
+    let seed_len = if pre_image.is_some() { 0 } else { leaf.seed.ops.len() };
+    let all_ops: Vec<&Op> = if pre_image.is_some() { leaf.ops.to_vec() } else { leaf.seed.ops.iter().chain(leaf.ops.iter().copied()).collect() };
     let open_events = std::mem::take(&mut run.open_events);
     // sims[k] = simulation state before op k
-    let mut sim = Sim::default();
+    let mut sim = match &pre_image {
+        Some(img) => Sim::from_image(img),
+        None => Sim::default(),
+    };
     let sim_before_open = sim.clone();
     for e in &open_events {
         sim.apply(e, None);
@@ -961,7 +1012,7 @@ fn recover_and_continue(dir: &Path, image: &Image, q: &str, cfg: &CrashCfg) -> R
 }
 
 pub fn c18_crash_leaf(env: &mut Env, leaf: &Leaf) {
-    let cfg = CrashCfg { property: "C18", oracle: Oracle::C02, policy: PolicyCfg::Default, hash_seed: 0, power_loss: false, second_crash: false, cont_struct: 0, cont_other: 0, initial_open: false };
+    let cfg = CrashCfg { property: "C18", oracle: Oracle::C02, policy: PolicyCfg::Default, hash_seed: 0, power_loss: false, second_crash: false, cont_struct: 0, cont_other: 0, initial_open: false, pre_cut_last_file: None };
     // resolve ops against the model
     let mut model = Model::default();
     let mut resolver = Resolver::new(default_names());
